@@ -21,7 +21,7 @@ ScenKey ==
          ELSE IF out.op = "UnlockExit"
          THEN <<"unlockexit", out.byException, out.before, locked, usaved>>
          ELSE IF out.op \in {"Bind", "Register"} /\ out.status = "RuntimeError"
-         THEN <<"guard", out.op, Len(usaved)>>
+         THEN <<"guard", out.op, Len(usaved), IF out.op = "Register" THEN out.conf.sel ELSE <<>> >>
          ELSE IF out.op = "Clear" THEN <<"clear", out.clearConstants, Len(usaved), Len(hooks)>>
          ELSE <<"none">>
     [] ScenKind = "call" ->
